@@ -4,6 +4,16 @@ claims, techniques and not_applicable reasons stay consistent)."""
 import json, subprocess
 
 CLAIMED = {
+ "C08": dict(
+   technique="error-discipline rules + finite order abstraction of the expiry decisions + path/feasibility rules on go/ssa; atomicity rules of the lockset engine for the cache type",
+   text="Decides the error and decision-logic clauses: no error of the store layer is dropped or laundered through Unwrap(Join) (ER1-ER3); Get, DeleteExpired and IsExpired agree on 'expired' at every abstract point the writer can store (OD1, exhaustive over {-1,0,<now,=now,>now}); IsExpired's true answer is feasible (OD3); the janitor starts exactly under cleanupTime > 0 and only calls the locked scan; Set cannot reach its store when its lookup found a live entry, Update always stores; Count derives from the map (CM1); each cache operation is one atomic step against the concurrent janitor (AT1/AT2). Everything timed is not decided.",
+   note="Trusted: go/ssa, errors.Join/Unwrap contracts, the clock exceeds every small constant; the full lock discipline is C01/C02.",
+   ref="DESIGN.md section 3 E5/E6, section 4 C08"),
+ "C17": dict(
+   technique="who-may-call + value-flow rules on go/ssa around singleflight.Do; cache-layer atomicity and expiry-agreement rules",
+   text="The user function is invoked only inside the literal passed to singleflight.Do on the memoizer's shared group with the caller's key (so Do's contract excludes two executions in flight for every schedule); miss path returns Do's result unmodified, hit path returns the looked-up item without calling anything; errors are returned and never cached; lookup, flight and store use the same key; and the cache layer below is atomic against the janitor and agrees on 'expired'. Expiry timing and singleflight internals are not decided.",
+   note="Trusted: singleflight.Group.Do contract, go/ssa.",
+   ref="DESIGN.md section 4 C17"),
  "C16": dict(
    technique="ownership/effect dataflow with per-function summaries on go/ssa (argument storage vs fresh storage tags)",
    text="Proves for every exported helper of the six helper files plus heap.FromSlice/Sort that no write (store, map update/delete, copy, sort, append onto an argument) reaches argument storage (OW1), every returned container and every container stored inside the result is fresh storage (OW2), and the in-place helpers write only their designated argument (OW3). Implies the statement structurally; callbacks and element-level sharing are not decided.",
